@@ -34,6 +34,19 @@ CLAIMED['C05'] = dict(
          'ordinary error.  Value space is sampled (prefixes exhaustive per base PEL, corruptions 1-3 values per offset).',
     technique='TLC model checking of DataStream.tla + TLC trace validation of recorded cursor events and outcomes of the real decoder (python and python -O)')
 
+CLAIMED['C12'] = dict(
+    text='TLC model-checks CleanWrite.tla - one action per step of the decode/open/write/flush/close/unlink protocol '
+         'of --json --clean and --file --clean, the environment choosing which step fails and a Crash action enabled '
+         'everywhere - for Safe (input removed => output complete) in every reachable state.  TLC then emits every '
+         'fault schedule (Gen_CleanWrite); each is replayed against the real parseAndWriteOutput and main() with '
+         'faults injected at the I/O seam (open/write/flush/close of the output object, sys.stdout) and os.remove '
+         'recorded; the recorded event sequence is folded through the spec\'s effect operators by TLC and Safe is '
+         'evaluated in every intermediate state, together with the final on-disk state.',
+    design='DESIGN.md 4.10, 5 C12',
+    note='Trusted: TLC; fault injection at the Python I/O seam stands for ENOSPC/EIO/EPIPE.  For --file the document '
+         'counts as emitted once stdout was flushed successfully.',
+    technique='TLC model checking of CleanWrite.tla (all fault choices and crash points) + TLC-generated fault schedules replayed into the real code, event traces validated by TLC')
+
 REASON_NOT_YET = 'check not built yet in this session (planned per DESIGN.md 5); not claimed until its TLC-judged check runs green on the unchanged tree'
 
 
